@@ -22,7 +22,7 @@ func init() {
 	fw.Register(&fw.Property{
 		ID:    "C15",
 		Level: "fault_enumeration",
-		Rule: "case = one input (CSV document, JSON document, frame to write, SQL result set, frame to insert) with EVERY fault position enumerated: reader fails after k bytes for every k in 0..len under three chunkings (whole, one byte, random); " +
+		Rule: "case = one input (CSV document, JSON document, frame to write, SQL result set, frame to insert) with EVERY fault position enumerated: reader fails after k bytes for every k in 0..len under four chunkings (whole, one byte, random, whole with the error returned together with the last bytes); " +
 			"writer refuses everything after k accepted bytes for every k in 0..total; driver fails at Prepare, at Query, at Next for every row r in 0..R, delivers an unsupported value at every row, fails at every Exec number; " +
 			"evaluation = one (input, fault position, chunking) execution judged by: no panic, and (error reported OR read result equals the fault-free result) / (error reported OR the writer accepted everything); " +
 			"non-trivial = fault position strictly inside the data (0 < k < len, r < R); distinct by (input, position, chunking)",
@@ -70,6 +70,11 @@ func (r *faultReader) Read(p []byte) (int, error) {
 	}
 	copy(p, r.data[r.pos:r.pos+n])
 	r.pos += n
+	if r.mode == 3 && r.pos >= r.k {
+		// io.Reader may return the error together with the last bytes it could deliver
+		r.faults++
+		return n, errFault
+	}
 	return n, nil
 }
 
@@ -125,7 +130,7 @@ func c15ReaderPositions(c *fw.Case, what string, doc []byte, read func(r io.Read
 	c.Count("inputs:"+what, 1)
 	reported := 0
 	for k := 0; k <= len(doc); k++ {
-		for mode := 0; mode < 3; mode++ {
+		for mode := 0; mode < 4; mode++ {
 			c.Eval(1)
 			c.Count("fault_positions:"+what, 1)
 			if k > 0 && k < len(doc) {
@@ -134,7 +139,7 @@ func c15ReaderPositions(c *fw.Case, what string, doc []byte, read func(r io.Read
 			rd := &faultReader{data: doc, k: k, mode: mode, rng: rand.New(rand.NewSource(int64(k)*7 + int64(mode)))}
 			var res qframe.QFrame
 			pv, stack := fw.Guard(func() { res = read(rd) })
-			modeName := []string{"whole", "bytewise", "random"}[mode]
+			modeName := []string{"whole", "bytewise", "random", "whole, error returned together with the last bytes"}[mode]
 			if pv != nil {
 				if reported < 3 {
 					c.Fail("panic:"+what, "%s panicked when the reader failed after %d of %d bytes (%s chunks): %v\n%s", what, k, len(doc), modeName, pv, clip(stack, 1000))
